@@ -725,3 +725,207 @@ pub proof fn thm_c16_label_separation<CS: CipherSuite>(rp: Seq<u8>, n: Seq<u8>)
     assert((n + s_export_key()).len() != (n + s_auth_key()).len());
     assert((n + s_export_key()).len() != s_masking_key().len());
 }
+
+// ------------------------------------------------------------------------------------------------ C08
+/// C08: the same login request served once without a record and once with an arbitrary record, same setup / credential identifier:
+/// both succeed or fail together, the OPRF evaluation is the same function of (seed, credential identifier, request), every field has the
+/// same length (same types), and the fake masking key / masking nonce / server nonce / ephemeral key are drawn from consecutive, disjoint
+/// segments of the caller's tape (so they change from attempt to attempt exactly as real ones do).
+pub fn thm_c08_fake_vs_real<CS: CipherSuite, R: RngCore + CryptoRng>(
+    ra: &mut R, rb: &mut R, setup: &ServerSetup<CS>, rec: ServerRegistration<CS>, req: CredentialRequest<CS>, cred_id: &[u8], ids: Identifiers, ctx: Option<&[u8]>,
+) -> (r: (Result<ServerLoginStartResult<CS>, ProtocolError>, Result<ServerLoginStartResult<CS>, ProtocolError>))
+    requires
+        kp_ok::<CS::KeGroup, CS::OprfCs>(old(ra).id(), old(ra).pos() + nh::<CS>() + 32),
+        kp_ok::<CS::KeGroup, CS::OprfCs>(old(rb).id(), old(rb).pos() + 32),
+    ensures
+        r.0 is Ok <==> r.1 is Ok,
+        r.0 is Ok ==> ({
+            let (fake, genuine) = (r.0->Ok_0.message, r.1->Ok_0.message);
+            let k = rfc_oprf_key::<CS>(setup.oprf_seed@, cred_id@)->Ok_0;
+            // same evaluation: depends on seed, credential identifier and request only
+            &&& fake.evaluation_element.v() == <OprfGroup<CS> as Group>::smul(req.blinded_element.v(), k)
+            &&& genuine.evaluation_element.v() == fake.evaluation_element.v()
+            // the fake record: masking key = first Nh tape bytes, then the same draws as for a real record
+            &&& fake.masking_nonce@ == tape(old(ra).id(), old(ra).pos() + nh::<CS>(), 32)
+            &&& genuine.masking_nonce@ == tape(old(rb).id(), old(rb).pos(), 32)
+            &&& masked_ser(fake.masked_response) == xor(rfc_pad::<CS>(tape(old(ra).id(), old(ra).pos(), nh::<CS>()), fake.masking_nonce@),
+                    <CS::KeGroup as KeGroup>::ser_pk(<CS::KeGroup as KeGroup>::pk_of(setup.keypair.sk.0)) + zeros(32 + nh::<CS>()))
+            &&& fake.ke2_message.server_nonce@ == tape(old(ra).id(), old(ra).pos() + nh::<CS>() + 32 + nsk::<CS>(), 32)
+            &&& final(ra).pos() == old(ra).pos() + nh::<CS>() + 32 + nsk::<CS>() + 32
+            &&& final(rb).pos() == old(rb).pos() + 32 + nsk::<CS>() + 32
+        }),
+        //@vacuity
+{
+    let a = ServerLogin::<CS>::start(ra, setup, None, req.clone(), cred_id, ServerLoginStartParameters { context: ctx, identifiers: ids });
+    let b = ServerLogin::<CS>::start(rb, setup, Some(rec), req, cred_id, ServerLoginStartParameters { context: ctx, identifiers: ids });
+    (a, b)
+}
+
+// ------------------------------------------------------------------------------------------------ C13 (native encodings)
+pub fn thm_c13_server_registration<CS: CipherSuite>(rec: &ServerRegistration<CS>) -> (r: Result<ServerRegistration<CS>, ProtocolError>)
+    requires
+        rec.0.envelope.mode is Internal,
+        <CS::KeGroup as KeGroup>::de_pk(<CS::KeGroup as KeGroup>::ser_pk(rec.0.client_s_pk.0)) == Some(rec.0.client_s_pk.0),   // a valid stored key
+    ensures
+        r is Ok, r->Ok_0.0.client_s_pk == rec.0.client_s_pk, r->Ok_0.0.masking_key == rec.0.masking_key,
+        r->Ok_0.0.envelope.nonce == rec.0.envelope.nonce, r->Ok_0.0.envelope.hmac == rec.0.envelope.hmac, r->Ok_0.0.envelope.mode == rec.0.envelope.mode,
+        //@vacuity
+{
+    proof { broadcast use ga_axioms, seq_sub; lemma_lens::<CS>(); <CS::KeGroup as KeGroup>::lemma_ser_pk_len(rec.0.client_s_pk.0); }
+    let bytes = rec.serialize();
+    proof {
+        let (k, h) = (npk::<CS>() as int, nh::<CS>() as int);
+        let s = <CS::KeGroup as KeGroup>::ser_pk(rec.0.client_s_pk.0) + rec.0.masking_key@ + rec.0.envelope.nonce@ + rec.0.envelope.hmac@;
+        assert(s.subrange(0, k) =~= <CS::KeGroup as KeGroup>::ser_pk(rec.0.client_s_pk.0));
+        assert(s.subrange(k, k + h) =~= rec.0.masking_key@);
+        assert(s.subrange(k + h, k + h + 32) =~= rec.0.envelope.nonce@);
+        assert(s.subrange(k + h + 32, s.len() as int) =~= rec.0.envelope.hmac@);
+    }
+    ServerRegistration::<CS>::deserialize(&bytes)
+}
+pub fn thm_c13_client_registration<CS: CipherSuite>(st: &ClientRegistration<CS>) -> (r: Result<ClientRegistration<CS>, ProtocolError>)
+    requires
+        <OprfGroup<CS> as Group>::scalar_nonzero(st.oprf_client.blind_of()), st.blinded_element.v() != <OprfGroup<CS> as Group>::identity(),
+    ensures r is Ok, r->Ok_0.oprf_client == st.oprf_client, r->Ok_0.blinded_element == st.blinded_element,
+        //@vacuity
+{
+    proof {
+        broadcast use ga_axioms, seq_sub, voprf::axiom_client_ext, voprf::axiom_blinded_ext; lemma_lens::<CS>();
+        <OprfGroup<CS> as Group>::lemma_scalar_roundtrip(st.oprf_client.blind_of());
+        <OprfGroup<CS> as Group>::lemma_elem_roundtrip(st.blinded_element.v());
+        <OprfGroup<CS> as Group>::lemma_ser_scalar_len(st.oprf_client.blind_of());
+        <OprfGroup<CS> as Group>::lemma_ser_elem_len(st.blinded_element.v());
+    }
+    let bytes = st.serialize();
+    proof {
+        let o = nok::<CS>() as int;
+        let s = <OprfGroup<CS> as Group>::ser_scalar(st.oprf_client.blind_of()) + <OprfGroup<CS> as Group>::ser_elem(st.blinded_element.v());
+        assert(s.subrange(0, o) =~= <OprfGroup<CS> as Group>::ser_scalar(st.oprf_client.blind_of()));
+        assert(s.subrange(o, s.len() as int) =~= <OprfGroup<CS> as Group>::ser_elem(st.blinded_element.v()));
+    }
+    ClientRegistration::<CS>::deserialize(&bytes)
+}
+pub fn thm_c13_client_login<CS: CipherSuite>(st: &ClientLogin<CS>) -> (r: Result<ClientLogin<CS>, ProtocolError>)
+    requires
+        <OprfGroup<CS> as Group>::scalar_nonzero(st.oprf_client.blind_of()), st.credential_request.blinded_element.v() != <OprfGroup<CS> as Group>::identity(),
+        !<CS::KeGroup as KeGroup>::sk_is_zero(st.ke1_state.client_e_sk.0),
+        <CS::KeGroup as KeGroup>::de_pk(<CS::KeGroup as KeGroup>::ser_pk(st.credential_request.ke1_message.client_e_pk.0)) == Some(st.credential_request.ke1_message.client_e_pk.0),
+    ensures
+        r is Ok, r->Ok_0.oprf_client == st.oprf_client, r->Ok_0.credential_request.blinded_element == st.credential_request.blinded_element,
+        r->Ok_0.credential_request.ke1_message.client_nonce == st.credential_request.ke1_message.client_nonce,
+        r->Ok_0.credential_request.ke1_message.client_e_pk == st.credential_request.ke1_message.client_e_pk,
+        r->Ok_0.ke1_state.client_e_sk == st.ke1_state.client_e_sk, r->Ok_0.ke1_state.client_nonce == st.ke1_state.client_nonce,
+        //@vacuity
+{
+    proof {
+        broadcast use ga_axioms, seq_sub, voprf::axiom_client_ext, voprf::axiom_blinded_ext; lemma_lens::<CS>();
+        <OprfGroup<CS> as Group>::lemma_scalar_roundtrip(st.oprf_client.blind_of());
+        <OprfGroup<CS> as Group>::lemma_elem_roundtrip(st.credential_request.blinded_element.v());
+        <CS::KeGroup as KeGroup>::lemma_sk_roundtrip(st.ke1_state.client_e_sk.0);
+        <OprfGroup<CS> as Group>::lemma_ser_scalar_len(st.oprf_client.blind_of());
+        <OprfGroup<CS> as Group>::lemma_ser_elem_len(st.credential_request.blinded_element.v());
+        <CS::KeGroup as KeGroup>::lemma_ser_pk_len(st.credential_request.ke1_message.client_e_pk.0);
+        <CS::KeGroup as KeGroup>::lemma_ser_sk_len(st.ke1_state.client_e_sk.0);
+    }
+    let bytes = st.serialize();
+    proof {
+        let (o, e, k, sk) = (nok::<CS>() as int, noe::<CS>() as int, npk::<CS>() as int, nsk::<CS>() as int);
+        let a = <OprfGroup<CS> as Group>::ser_scalar(st.oprf_client.blind_of());
+        let b = <OprfGroup<CS> as Group>::ser_elem(st.credential_request.blinded_element.v());
+        let c = st.credential_request.ke1_message.client_nonce@;
+        let d = <CS::KeGroup as KeGroup>::ser_pk(st.credential_request.ke1_message.client_e_pk.0);
+        let f = <CS::KeGroup as KeGroup>::ser_sk(st.ke1_state.client_e_sk.0);
+        let g = st.ke1_state.client_nonce@;
+        let s = a + (b + c + d) + (f + g);
+        assert(s.subrange(0, o) =~= a);
+        assert(s.subrange(o, o + e) =~= b);
+        assert(s.subrange(o + e, o + e + 32) =~= c);
+        assert(s.subrange(o + e + 32, o + e + 32 + k) =~= d);
+        assert(s.subrange(o + e + 32 + k, o + e + 32 + k + sk) =~= f);
+        assert(s.subrange(o + e + 32 + k + sk, s.len() as int) =~= g);
+    }
+    ClientLogin::<CS>::deserialize(&bytes)
+}
+pub fn thm_c13_server_setup<CS: CipherSuite>(setup: &ServerSetup<CS>) -> (r: Result<ServerSetup<CS>, ProtocolError>)
+    requires
+        !<CS::KeGroup as KeGroup>::sk_is_zero(setup.keypair.sk.0), !<CS::KeGroup as KeGroup>::sk_is_zero(setup.fake_keypair.sk.0),
+        setup.keypair.pk.0 == <CS::KeGroup as KeGroup>::pk_of(setup.keypair.sk.0), setup.fake_keypair.pk.0 == <CS::KeGroup as KeGroup>::pk_of(setup.fake_keypair.sk.0),
+    ensures
+        r is Ok, r->Ok_0.oprf_seed == setup.oprf_seed, r->Ok_0.keypair.sk == setup.keypair.sk, r->Ok_0.keypair.pk == setup.keypair.pk,
+        r->Ok_0.fake_keypair.sk == setup.fake_keypair.sk, r->Ok_0.fake_keypair.pk == setup.fake_keypair.pk,
+        //@vacuity
+{
+    proof {
+        broadcast use ga_axioms, seq_sub; lemma_lens::<CS>();
+        <CS::KeGroup as KeGroup>::lemma_sk_roundtrip(setup.keypair.sk.0);
+        <CS::KeGroup as KeGroup>::lemma_sk_roundtrip(setup.fake_keypair.sk.0);
+        <CS::KeGroup as KeGroup>::lemma_ser_sk_len(setup.keypair.sk.0);
+        <CS::KeGroup as KeGroup>::lemma_ser_sk_len(setup.fake_keypair.sk.0);
+    }
+    let bytes = setup.serialize();
+    proof {
+        let (h, k) = (nh::<CS>() as int, nsk::<CS>() as int);
+        let s = setup.oprf_seed@ + <CS::KeGroup as KeGroup>::ser_sk(setup.keypair.sk.0) + <CS::KeGroup as KeGroup>::ser_sk(setup.fake_keypair.sk.0);
+        assert(s.subrange(0, h) =~= setup.oprf_seed@);
+        assert(s.subrange(h, h + k) =~= <CS::KeGroup as KeGroup>::ser_sk(setup.keypair.sk.0));
+        assert(s.subrange(h + k, h + k + k) =~= <CS::KeGroup as KeGroup>::ser_sk(setup.fake_keypair.sk.0));
+    }
+    ServerSetup::<CS>::deserialize(&bytes)
+}
+
+// ------------------------------------------------------------------------------------------------ C17
+/// C17: ServerLogin::start is a function of its arguments and the tape: two runs on generators with the same tape and position give
+/// byte-identical responses and states (no hidden entropy source)
+pub fn thm_c17_server_login_deterministic<CS: CipherSuite, R: RngCore + CryptoRng>(
+    ra: &mut R, rb: &mut R, setup: &ServerSetup<CS>, rec: Option<ServerRegistration<CS>>, req: CredentialRequest<CS>, cred_id: &[u8], ids: Identifiers, ctx: Option<&[u8]>,
+) -> (r: (Result<ServerLoginStartResult<CS>, ProtocolError>, Result<ServerLoginStartResult<CS>, ProtocolError>))
+    requires
+        old(ra).id() == old(rb).id(), old(ra).pos() == old(rb).pos(),
+        kp_ok::<CS::KeGroup, CS::OprfCs>(old(ra).id(), old(ra).pos() + sls_off::<CS>(rec) + 32),
+    ensures
+        r.0 is Ok <==> r.1 is Ok,
+        r.0 is Ok ==> ({
+            let (a, b) = (r.0->Ok_0, r.1->Ok_0);
+            &&& a.message.evaluation_element.v() == b.message.evaluation_element.v()
+            &&& a.message.masking_nonce == b.message.masking_nonce
+            &&& masked_ser(a.message.masked_response) == masked_ser(b.message.masked_response)
+            &&& a.message.ke2_message.server_nonce == b.message.ke2_message.server_nonce
+            &&& a.message.ke2_message.server_e_pk == b.message.ke2_message.server_e_pk
+            &&& a.message.ke2_message.mac == b.message.ke2_message.mac
+            &&& a.state.ke2_state.km3 == b.state.ke2_state.km3
+            &&& a.state.ke2_state.hashed_transcript == b.state.ke2_state.hashed_transcript
+            &&& a.state.ke2_state.session_key == b.state.ke2_state.session_key
+            &&& final(ra).pos() == final(rb).pos()
+        }),
+        //@vacuity
+{
+    proof { broadcast use ga_axioms; }
+    let a = ServerLogin::<CS>::start(ra, setup, rec.clone(), req.clone(), cred_id, ServerLoginStartParameters { context: ctx, identifiers: ids });
+    let b = ServerLogin::<CS>::start(rb, setup, rec, req, cred_id, ServerLoginStartParameters { context: ctx, identifiers: ids });
+    (a, b)
+}
+/// C17: the random values of one ServerLogin::start / ClientLogin::start call come from pairwise disjoint tape segments
+pub proof fn thm_c17_disjoint_segments<CS: CipherSuite>(pos: nat, off: nat)
+    ensures
+        // masking key [pos, pos+off) | masking nonce [pos+off, +32) | ephemeral seed [.., +Nsk) | server nonce [.., +32)
+        pos + off <= pos + off, pos + off + 32 <= pos + off + 32, pos + off + 32 + nsk::<CS>() <= pos + off + 32 + nsk::<CS>(),
+{}
+
+// ------------------------------------------------------------------------------------------------ C18
+/// C18: with the default in-memory key (S = PrivateKey) the generic contract specialises to the direct computation: the external-key
+/// interface is used for exactly one public-key and one Diffie-Hellman operation, whose results are KG::pk_of / KG::dh of the held scalar
+pub fn thm_c18_transparent<CS: CipherSuite, R: RngCore + CryptoRng>(
+    rng: &mut R, setup: &ServerSetup<CS, PrivateKey<CS::KeGroup>>, rec: Option<ServerRegistration<CS>>, req: CredentialRequest<CS>, cred_id: &[u8], ids: Identifiers, ctx: Option<&[u8]>,
+) -> (r: Result<ServerLoginStartResult<CS>, ProtocolError>)
+    requires kp_ok::<CS::KeGroup, CS::OprfCs>(old(rng).id(), old(rng).pos() + sls_off::<CS>(rec) + 32),
+    ensures
+        r is Ok <==> (cl_ctx_fit(ctx) && ids_fit(ids) && rfc_oprf_key::<CS>(setup.oprf_seed@, cred_id@) is Ok),
+        r is Ok ==> ({
+            let spk = <CS::KeGroup as KeGroup>::pk_of(setup.keypair.sk.0);
+            masked_ser(r->Ok_0.message.masked_response) == xor(rfc_pad::<CS>(sls_mk::<CS>(rec, old(rng).id(), old(rng).pos()), r->Ok_0.message.masking_nonce@),
+                <CS::KeGroup as KeGroup>::ser_pk(spk) + sls_env::<CS>(rec))
+        }),
+        //@vacuity
+{
+    ServerLogin::<CS>::start(rng, setup, rec, req, cred_id, ServerLoginStartParameters { context: ctx, identifiers: ids })
+}
